@@ -174,7 +174,7 @@ func TestC12Instances(t *testing.T) {
 	if ev.Thorough() {
 		maxN = 6
 	}
-	rep.Bound = fmt.Sprintf("rings of 1..%d instances with 2 tokens each from a 12-value alphabet spread over the circle (incl. 0, 1 and 2^32-1) in 4 placements; zone-awareness off (no zones) and on (every zone assignment up to renaming, <=3 zones); read-only flags: none or any single instance (switched long ago, in the second of the query, or 2 s ahead of it); %d identifiers; sizes 0..n+2; every single-instance removal (keeping the zone set) and every single read-only toggle", maxN, len(idents))
+	rep.Bound = fmt.Sprintf("rings of 1..%d instances with 2 tokens each from a 12-value alphabet spread over the circle (incl. 0, 1 and 2^32-1) in 4 placements; zone-awareness off (no zone labels, and labels alternating over 2 / 3 zones) and on (every zone assignment up to renaming, <=3 zones); read-only flags: none or any single instance (switched long ago, in the second of the query, or 2 s ahead of it); %d identifiers; sizes 0..n+2; every single-instance removal (keeping the zone set) and every single read-only toggle", maxN, len(idents))
 	rep.Rule = "real Ring.ShuffleShard: (1) same answer from a second fresh client and from the cached path, (2) per zone min(ceil(size/zones), eligible) members (all writable ones for size<=0), (3) no read-only member, (4) shard(size) ⊆ shard(size+zones), (5) removing one instance or toggling one read-only flag adds <=1 and removes <=1 member; distinct_nontrivial = distinct (ring, identifier) pairs whose shard is a proper subset of the writable instances"
 	deadline := ev.Deadline(8 * time.Minute)
 	enum.Frozen(t, func() {
@@ -187,6 +187,15 @@ func TestC12Instances(t *testing.T) {
 			cfgs := []cfg{{false, make([]int, n)}}
 			for _, z := range rgs(n, 3) {
 				cfgs = append(cfgs, cfg{true, z})
+			}
+			// zone-awareness off on instances that DO carry zone labels (a zone-unaware ring over a zoned fleet): labels
+			// alternate a,b / a,b,c; the labels must not matter
+			for _, k := range []int{2, 3} {
+				z := make([]int, n)
+				for i := range z {
+					z[i] = i%k + 1 // 1-based: 0 means "no label"
+				}
+				cfgs = append(cfgs, cfg{false, z})
 			}
 			// when the read-only switch happened: long ago | in the very second of the query | two seconds "ahead" (clock skew):
 			// a plain shard excludes a read-only instance whatever that time is
@@ -203,6 +212,8 @@ func TestC12Instances(t *testing.T) {
 					z := ""
 					if cf.za {
 						z = string(rune('a' + cf.zones[i]))
+					} else if cf.zones[i] > 0 {
+						z = string(rune('a' + cf.zones[i] - 1))
 					}
 					in := inst{id: fmt.Sprintf("i%d", i), zone: z, regTS: now.Unix() - 10000, tokens: []uint32{tokAlpha[lay[i]], tokAlpha[lay[i+6]]}}
 					if i == roIdx {
